@@ -299,7 +299,15 @@ def run_impl(case, scratch=None):
             else:
                 p = run.pending
                 pick = case.get("pick", "random")
-                k = p[0] if pick == "fifo" else p[-1] if pick == "lifo" else rng.choice(p)
+                if pick == "script":
+                    # enumeration of completion orders: the i-th choice among the outstanding services
+                    br = case.setdefault("_branching", [])
+                    sp = case.get("script") or []
+                    ch = sp[len(br)] if len(br) < len(sp) else 0
+                    br.append(len(p))
+                    k = sorted(p)[ch % len(p)]
+                else:
+                    k = p[0] if pick == "fifo" else p[-1] if pick == "lifo" else rng.choice(p)
                 rec = do({"op": "finish", "n": k})
             crashed = bool(rec.get("exc"))
             n += 1
